@@ -409,6 +409,8 @@ func runC03(c *Ctx) {
 	}
 	// ---------- R7 ----------
 	checkRowRewrites(c, "C03-R7")
+	checkLoaderCopies(c, "C03-R4")
+	checkIssuerAddrType(c, "C03-R5")
 }
 
 func isExtractOf(v ssa.Value, call *ssa.Call, idx int) bool {
